@@ -161,6 +161,16 @@ pub fn drain(post: &Ledger, wk: &Pubkey, salt: u64, idx: usize, cov: &mut Covera
                 return out;
             } else if !o.ok {
                 cov.note(&format!("drain_step_failed:{}:{:#x}", name, o.code()));
+                // "every position can be fully withdrawn and its fees collected": the only refusal a holder meets for a reason
+                // that is not the pool's is a clock that reads earlier than the pool's last update (InvalidTimestamp)
+                if o.code() != 6022 {
+                    out.push(viol(
+                        "drain_step_refused",
+                        idx,
+                        format!("{} of position {} ({}..{}, L={}) by its holder during a drain of pool {} is refused with {:#x} ({:?}): the claim cannot be paid out", name, pos_key, p.lower, p.upper, p.liquidity, wk, o.code(), o.custom()),
+                    ));
+                    return out;
+                }
             }
         }
         total_claim_a += BigUint::from(token_amount(&l, &oa));
